@@ -93,7 +93,7 @@ func honestTs(h uint64) int64 { return t0 + int64(h)*step }
 
 // famClient: histories of the real client through the 02-client keeper with real signed headers.
 func famClient(r *hx.Rng, o *sink, e *env) {
-	n := hx.N(30, 600)
+	n := hx.N(30, 350)
 	cp := &cpty{chainID: "cpty-1", rev: 1, vals: e.B.Vals, signers: e.B.Signers}
 	nvh := cp.vals.Hash()
 	for hi := 0; hi < n; hi++ {
